@@ -40,7 +40,7 @@ def run(ctx):
     ctx.assumptions = ["tagged SHA256 rows certified with hashlib; output points are the library's q*G (C03)"]
     if ctx.want("mc"):
         ml = 5 if q else 7
-        r = ctx.mc_expect_ok("taproot/MC_TapTree.tla", "MC_TapTree.cfg", what="tree shapes / paths / alterations", env={"MAXLEAVES": ml}, timeout=3000)
+        r = ctx.mc_expect_ok("taproot/MC_TapTree.tla", "MC_TapTree.cfg", what="tree shapes / paths / alterations", env={"MAXLEAVES": ml}, timeout=7200)
         ctx.exhaustive.append("MC_TapTree: all labelled tree shapes with <= %d leaves (%d trees) x every leaf" % (ml, r.distinct))
     if not ctx.want("cases"):
         return
@@ -148,7 +148,7 @@ def run(ctx):
         T2.hash_tapleaf, T2.hash_tapbranch, pecc.hash_taptweak = orig_leaf, orig_branch, orig_tweak
     byid = {c["id"]: c for c in cases}
     ctx.sample({k: v for k, v in cases[0].items() if k in ("id", "kind", "tree")})
-    bad = ctx.validate("taproot/C12Cases.tla", cases, "C12Cases.cfg", timeout=3000, per_shard_min=10)
+    bad = ctx.validate("taproot/C12Cases.tla", cases, "C12Cases.cfg", timeout=7200, per_shard_min=10)
     for cid, why in bad.items():
         c = byid[cid]
         ctx.violation("%s:%s" % (c["kind"], why), "%s case %s: %s" % (c["kind"], cid, why), {"kind": "case", "case": {k: v for k, v in c.items() if k != "hr"}})
